@@ -11,15 +11,17 @@ for d in sorted(os.listdir(os.path.join(V, "seeded"))):
     desc = open(os.path.join(p, "description.md")).read() if os.path.exists(os.path.join(p, "description.md")) else ""
     m = re.search(r"`([^`]*\.rs)`", desc)
     site = os.path.basename(m.group(1)) if m else "?"
-    r = res.get(d, {})
-    if not r:
-        verdict = "not run"
-    elif not r.get("applies", True):
-        verdict = "patch no longer applies (superseded by a fix commit)"
-    elif r.get("detected"):
-        verdict = "caught (%s): %s" % ("result-validation part" if r.get("mode") == "rv" else "full quick check", re.sub(r"\s+", " ", r.get("first", ""))[6:110])
-    else:
-        verdict = "MISSED (exit %s)" % r.get("exit")
-    rows.append("| %s | %s | %s |" % (d, site, verdict.replace("|", "/")))
+    parts = []
+    for key, label in ((d, "quick check"), (d + "@kani", "Kani part alone"), (d + "@rv", "result-validation part alone")):
+        r = res.get(key)
+        if not r:
+            continue
+        if not r.get("applies", True):
+            parts.append("patch no longer applies (superseded by a fix commit)")
+        elif r.get("detected"):
+            parts.append("caught by the %s: %s" % (label, re.sub(r"\s+", " ", r.get("first", ""))[6:100]))
+        else:
+            parts.append("MISSED by the %s (exit %s)" % (label, r.get("exit")))
+    rows.append("| %s | %s | %s |" % (d, site, ("; ".join(parts) or "not run").replace("|", "/")))
 print("| mutation | site | result |\n|---|---|---|")
 print("\n".join(rows))
